@@ -4,8 +4,10 @@ C14 — meaning of the control-flow term the extractor reads from `transactOnCon
 This is the (small, trusted) semantics of the Go constructs the function uses: sequential statements, `if` with
 init statement, a deferred closure that runs when the function exits (by `return` or by a panic of the
 body), `recover()` (non-nil exactly while panicking, and it stops the panic), assignment to the named result
-`err`, `fmt.Errorf` with `%w` (keeps the chain) versus any other verb (text only).  The driver's answers, the
-statement calls of the body and the body's outcome are inputs.  Anything the semantics does not know makes
+`err`, `fmt.Errorf` with `%w` (keeps the chain) versus any other verb (text only); a panic raised by
+`tx.Commit()` / `tx.Rollback()` inside the deferred closure abandons the rest of the closure and leaves the
+function (`escaping`).  The driver's answers (including the Begin attempts database/sql retries inside the one
+`b(conn)` call), the statement calls of the body and the body's outcome are inputs.  Anything the semantics does not know makes
 the run `stuck`, which the Tie theorem excludes.
 -/
 import GoZero.Extracted.C14
@@ -37,6 +39,7 @@ structure St where
   exiting   : Bool := false          -- runtime.Goexit in progress: deferred calls run, the function never returns
   completed : Bool := false          -- a local flag `completed` (if the function has one)
   returned  : Bool := false
+  escaping  : Option Src := none     -- a panic of the driver's Commit/Rollback is leaving the function
   stuck     : Bool := false
   log       : List Ev := []
   runs      : Nat := 0
@@ -70,6 +73,9 @@ def doInit (i : Inp) (s : St) : String → St
   | "" => s
   | "p := recover()" => { s with p := s.panicking && !s.nilp, panicking := false }
   | "e := tx.Rollback()" =>
+    if i.f.rollbackPanics then
+      { s with log := s.log ++ [.rollback false], escaping := some .rollback, returned := true }
+    else
     { s with log := s.log ++ [.rollback i.f.rollback],
              e := if i.f.rollback then none else some (Err.of .rollback) }
   | _ => { s with stuck := true }
@@ -86,8 +92,14 @@ def callBody (i : Inp) (s : St) : St :=
 def assign (i : Inp) (s : St) : Rhs → St
   | .call "fn(ctx, tx)" => callBody i s
   | .call "b(conn)" =>
-    { s with log := s.log ++ [.begin i.f.begin], err := if i.f.begin then none else some (Err.of .begin) }
+    -- one `db.Begin()`: the attempts answered ErrBadConn, then (unless database/sql gave up) the definitive one
+    if i.f.givesUp then { s with log := s.log ++ badPrefix maxBeginAttempts [], err := some (Err.of .badConn) }
+    else { s with log := s.log ++ badPrefix i.f.badConn [.begin i.f.begin],
+                  err := if i.f.begin then none else some (Err.of .begin) }
   | .call "tx.Commit()" =>
+    if i.f.commitPanics then
+      { s with log := s.log ++ [.commit false], escaping := some .commit, returned := true }
+    else
     { s with log := s.log ++ [.commit i.f.commit], err := if i.f.commit then none else some (Err.of .commit) }
   | .errorf verbs =>
     match fmtErr s verbs with
@@ -121,10 +133,14 @@ def run (i : Inp) : Blk → St → St
     else if src = "completed = true" then run i k { s with completed := true }
     else { s with stuck := true }
 
-/-- what a caller of the function sees: driver-call log, body runs and returned error — provided the run is
-understood (`stuck = false`) and no panic escapes. -/
-def outcome (s : St) : Option (List Ev × Nat × Option Err) :=
-  if s.stuck || s.panicking || s.exiting then none else some (s.log, s.runs, s.err)
+/-- what a caller of the function sees: driver-call log, body runs, returned error (or the value of the
+driver's panic the function leaves with, flagged) — provided the run is understood (`stuck = false`) and no
+panic of the body escapes. -/
+def outcome (s : St) : Option (List Ev × Nat × Option Err × Bool) :=
+  if s.stuck || s.panicking || s.exiting then none else
+  match s.escaping with
+  | some src => some (s.log, s.runs, some (Err.of src), true)
+  | none => some (s.log, s.runs, s.err, false)
 
 /-- `transactOnConn` as pinned when this check was built (completion of the body is inferred from
 `recover() != nil` alone) -/
